@@ -539,7 +539,7 @@ End LoopTB.
 Lemma lex_f_tb : forall f ls src ln toks ls', lex_f f ls src ln = Ok (toks, ls') -> TB ls -> TB ls'.
 Proof.
   induction f as [|f IH]; intros ls src ln toks ls' H I; [discriminate H|].
-  rewrite lex_f_unfold in H. unfold LOOP in H. eapply LOOPG_tb; [exact IH|exact H|exact I].
+  rewrite lex_f_unfold in H. destruct (lex_pre src); [discriminate H|]. unfold LOOP in H. eapply LOOPG_tb; [exact IH|exact H|exact I].
 Qed.
 Theorem lex_tb ls src ln toks ls' : lex ls src ln = Ok (toks, ls') -> TB ls -> TB ls'.
 Proof. unfold lex. apply lex_f_tb. Qed.
